@@ -4,7 +4,8 @@
    stream of the printed document), FmtSafe.v (separators), FmtLex.v (lexer over all layouts). *)
 From Coq Require Import List ZArith NArith String Ascii Bool Lia.
 From SCC Require Import Base.Sexp Lang.SynUtil Lang.FunSyn Model.Printer Model.Parser Model.FmtClass
-  Proof.FmtDefs Proof.FmtRound Proof.FmtGlue Proof.FmtSafe Proof.FmtLex.
+  Proof.FmtDefs Proof.FmtRound Proof.FmtGlue Proof.FmtSafe Proof.FmtLex Proof.FmtPretty.
+From SCC Require Import Model.Pretty.
 Import ListNotations.
 Local Open Scope string_scope.
 
@@ -153,3 +154,13 @@ Lemma idempotent_text_guarded c c2 p s :
   wf_prog p = true -> zsafe_prog p = true -> renders (d_prog c p) s ->
   option_map (d_prog c2) (parse_text s) = Some (d_prog c2 p).
 Proof. intros Hwf Hz Hr. now rewrite (roundtrip_text_guarded c p s). Qed.
+
+(* ---------- the layout algorithm of the `pretty` crate (Model/Pretty.v) is one of these layouts ---------- *)
+Lemma roundtrip_pretty_guarded c p :
+  wf_prog p = true -> zsafe_prog p = true -> parse_text (render (pwidth c) (d_prog c p)) = Some p.
+Proof. intros Hwf Hz. apply (roundtrip_text_guarded c); auto. apply render_renders. Qed.
+Lemma idempotent_pretty_guarded c p :
+  wf_prog p = true -> zsafe_prog p = true ->
+  option_map (fun q => render (pwidth c) (d_prog c q)) (parse_text (render (pwidth c) (d_prog c p)))
+  = Some (render (pwidth c) (d_prog c p)).
+Proof. intros Hwf Hz. now rewrite roundtrip_pretty_guarded. Qed.
